@@ -41,7 +41,7 @@ type ReaderSpec struct {
 	Size     int    `json:"size"`
 	Seed     int64  `json:"seed"`
 	FailAt   int64  `json:"failAt"`   // byte offset at which the source fails (-1: never)
-	FailKind string `json:"failKind"` // eof | custom | partial | unexpected | temporary (error with Temporary() = true) | transient / temptransient (one failed Read, then the source recovers)
+	FailKind string `json:"failKind"` // eof | custom | partial | unexpected | temporary (error with Temporary() = true) | transient / temptransient (one failed Read, then the source recovers) | parttransient (one Read returns bytes AND an error, then the source recovers)
 	DelayUs  int    `json:"delayUs"`  // random sleep (0..DelayUs) inside Read, after the bytes are taken
 	Splits   []int  `json:"splits"`   // policy "script": k-th Read returns Splits[k]/SplitC of a sample (TLC-simulated short reads)
 	SplitC   int    `json:"splitC"`
@@ -63,6 +63,7 @@ type WJob struct {
 	Mode         string     `json:"mode"` // stub | real
 	Items        []ItemPlan `json:"items"`
 	PlanSeed     int64      `json:"planSeed"`
+	Conc         int        `json:"conc"` // > 0: single-shot jobs with the same number run simultaneously
 	NumByte      int        `json:"numByte"`
 	Reader       ReaderSpec `json:"reader"`
 	Stream       StreamSpec `json:"stream"`
@@ -197,6 +198,8 @@ func (r *recorder) add(e Event) {
 }
 
 // ---------------------------------------------------------------- reader
+var leaksSeen int // jobs of this process after which goroutines stayed behind
+
 var errCustom = errors.New("verif: injected source failure")
 
 // tempError is what sockets, pipes and device files return for EAGAIN / EINTR / a deadline: an error like any other
@@ -286,7 +289,23 @@ func (r *obsReader) Read(p []byte) (int, error) {
 		}
 	}
 	// injected failure at byte offset FailAt
-	if r.rs.FailAt >= 0 && err == nil && (r.rs.FailKind == "transient" || r.rs.FailKind == "temptransient") {
+	if r.rs.FailAt >= 0 && err == nil && r.rs.FailKind == "parttransient" {
+		// one Read returns some bytes TOGETHER with an error; afterwards the source delivers again
+		if !r.failed && r.off+int64(n) > r.rs.FailAt {
+			if r.off < r.rs.FailAt {
+				n = int(r.rs.FailAt - r.off)
+			} else if n > 1 {
+				n = 1
+			}
+			// never together with the bytes that complete the caller's request: io.ReadFull drops such an error by contract
+			// (a final Read may legitimately return the last bytes with io.EOF), and the property speaks of errors that
+			// arrive before all required bytes were delivered
+			if n >= want {
+				n = want - 1
+			}
+			err = errCustom
+		}
+	} else if r.rs.FailAt >= 0 && err == nil && (r.rs.FailKind == "transient" || r.rs.FailKind == "temptransient") {
 		if !r.failed && r.off+int64(n) > r.rs.FailAt {
 			if r.off >= r.rs.FailAt {
 				n = 0
@@ -760,7 +779,11 @@ waitLoop:
 		res["named"] = namedItem(r.err, names)
 		// goroutine settle: workers exit after close(jobs)
 		leak := 0
-		for w := 0; w < 2000; w++ { // up to 10 s, only spent while goroutines are still around
+		settle := 2000
+		if leaksSeen >= 3 {
+			settle = 60 // a tree that leaks goroutines has been seen to do so: still counted, no longer waited for at length
+		}
+		for w := 0; w < settle; w++ { // up to 10 s, only spent while goroutines are still around
 			leak = runtime.NumGoroutine() - g0
 			if leak <= 0 {
 				break
@@ -768,6 +791,9 @@ waitLoop:
 			time.Sleep(5 * time.Millisecond)
 		}
 		res["leak"] = leak
+		if leak > 0 {
+			leaksSeen++
+		}
 		// anything a worker still does after the workflow has returned (a runner call, a Read) means the
 		// decision was taken before the barrier
 		time.Sleep(2 * time.Millisecond)
@@ -884,6 +910,47 @@ func compactEvents(ev []Event, info fnInfo) []Event {
 	return out
 }
 
+// runSingleLite: one SingleDetect call without the process-wide bookkeeping of runWorkflowJob (goroutine counts, registry
+// switching), so that several can run at once
+func runSingleLite(j *WJob) map[string]interface{} {
+	res := map[string]interface{}{"id": j.ID, "fn": j.Fn, "tag": j.Tag, "mode": j.Mode, "hang": false}
+	rec := &recorder{}
+	rd := &obsReader{sp: &j.Stream, rs: &j.Reader, rng: rand.New(rand.NewSource(j.Reader.Seed)),
+		drng: rand.New(rand.NewSource(j.Reader.Seed + 7)), rec: rec}
+	func() {
+		defer func() {
+			if p := recover(); p != nil {
+				res["panic"] = fmt.Sprint(p)
+			}
+		}()
+		ok, err := detect.SingleDetect(rd, j.NumByte)
+		res["verdict"] = ok
+		res["haserr"] = err != nil
+	}()
+	rd.mu.Lock()
+	res["consumed"] = rd.off
+	res["maxreq"] = rd.maxReq
+	rd.mu.Unlock()
+	if j.NumByte > 0 {
+		content := make([]byte, j.NumByte)
+		fillStream(&j.Stream, 0, content)
+		h2 := make([]int, 4)
+		h4 := make([]int, 16)
+		h8 := make([]int, 256)
+		for _, b := range content {
+			h8[b]++
+			h4[b>>4]++
+			h4[b&15]++
+			h2[b>>6]++
+			h2[(b>>4)&3]++
+			h2[(b>>2)&3]++
+			h2[b&3]++
+		}
+		res["h2"], res["h4"], res["h8"] = h2, h4, h8
+	}
+	return res
+}
+
 func workflowCmd(job []byte, out *Out) error {
 	var js struct {
 		Jobs []WJob `json:"jobs"`
@@ -892,7 +959,44 @@ func workflowCmd(job []byte, out *Out) error {
 		return err
 	}
 	hangs := 0
-	for i := range js.Jobs {
+	for i := 0; i < len(js.Jobs); i++ {
+		if js.Jobs[i].Conc > 0 && js.Jobs[i].Fn == "SingleDetect" {
+			// a run of single-shot jobs with the same group number executes simultaneously (each on its own source), behind a
+			// start barrier, three rounds; every execution is reported and judged on its own
+			k := i
+			for k < len(js.Jobs) && js.Jobs[k].Conc == js.Jobs[i].Conc && js.Jobs[k].Fn == "SingleDetect" {
+				k++
+			}
+			restoreRegistry()
+			group := js.Jobs[i:k]
+			results := make([]map[string]interface{}, len(group))
+			for round := 0; round < 3; round++ {
+				var wg sync.WaitGroup
+				start := make(chan struct{})
+				for g := range group {
+					wg.Add(1)
+					go func(g int) {
+						defer wg.Done()
+						<-start
+						r := runSingleLite(&group[g])
+						if results[g] == nil || r["verdict"] != results[g]["verdict"] || r["haserr"] != results[g]["haserr"] || r["panic"] != nil {
+							if results[g] != nil {
+								r["unstable"] = true
+							}
+							results[g] = r
+						}
+					}(g)
+				}
+				close(start)
+				wg.Wait()
+			}
+			for _, r := range results {
+				out.Emit(r)
+			}
+			out.Flush()
+			i = k - 1
+			continue
+		}
 		if hangs >= 3 {
 			// enough evidence; do not spend a watchdog period on every remaining job
 			out.Emit(map[string]interface{}{"id": js.Jobs[i].ID, "fn": js.Jobs[i].Fn, "skipped": true})
